@@ -154,7 +154,12 @@ class C07(Prop):
                   # NaN (alone and inside tuples): its builtin hash depends on the object's address since Python 3.10
                   {'pairs': [[{'f': 'nan'}, 0], [{'t': [1, {'f': 'nan'}]}, 1], [{'t': ['k', {'t': [{'f': 'nan'}, None]}]}, 2],
                              [{'f': 'inf'}, 3], [{'f': '-inf'}, 4], [{'f': '-0.0'}, 5], [0, 6]], 'n': 1000, 'slices': 2},
-                  {'pairs': [[{'f': 'nan'}, i] for i in range(5)], 'n': 7, 'slices': 3}]
+                  {'pairs': [[{'f': 'nan'}, i] for i in range(5)], 'n': 7, 'slices': 3},
+                  # numbers of the decimal module (their NaN too) and byte strings, alone and inside tuples
+                  {'pairs': [[{'dec': 'NaN'}, 0], [{'dec': '-NaN'}, 1], [{'t': [1, {'t': [None, {'dec': 'NaN'}]}]}, 2], [{'dec': '1.50'}, 3],
+                             [{'dec': '1'}, 4], [1, 5], [{'dec': '-0'}, 6]], 'n': 1000, 'slices': 2},
+                  {'pairs': [[{'b': 'spark'}, 0], [{'b': 'a'}, 1], [{'t': [{'b': 'k'}, 1]}, 2], [{'b': ''}, 3], ['spark', 4]], 'n': 1000,
+                   'slices': 2}]
         doc = json.dumps({'cases': cases + fcases})
         outs = {}
         for seed in ('0', '1', '2', 'random'):
